@@ -1173,7 +1173,15 @@ func (c *Ctx) framingRule(rule string) {
 		return
 	}
 	nGood := 0
-	funcInstrs(producer, func(in ssa.Instruction) {
+	frameInstrs := func(f func(ssa.Instruction)) {
+		funcInstrs(producer, f)
+		for _, lr := range c.lineReads(producer) {
+			if lr.Site != lr.Inner {
+				funcInstrs(lr.Inner.Parent(), f)
+			}
+		}
+	}
+	frameInstrs(func(in ssa.Instruction) {
 		cc := callOf(in)
 		if cc == nil {
 			return
@@ -1223,10 +1231,53 @@ func runC19(c *Ctx) {
 	c.capAddRule("R8")
 	r.Rule("R7", "Cap(END) said is CAP END sent: on every path through Cap on which no capability list was given, a line is handed to Raw - no state of the client (a count of pending requests, say) can hold the line back")
 	c.capAlwaysSendsRule("R7", capFn)
+	// endWrapper: a client function every path of which says Cap(END) (directly or through another such
+	// function) - calling it is saying Cap(END)
+	endMemo := map[*ssa.Function]int{}
+	var endWrapper func(fn *ssa.Function) bool
+	endWrapper = func(fn *ssa.Function) bool {
+		if fn == nil || fn == capFn || !c.InModuleFn(fn) || fn.Package() != c.Client || fn.Blocks == nil {
+			return false
+		}
+		switch endMemo[fn] {
+		case 1:
+			return false
+		case 2:
+			return true
+		case 3:
+			return false
+		}
+		endMemo[fn] = 1
+		ok, _ := AllPathsFromEntryPass(fn, func(in ssa.Instruction) bool {
+			cc := callOf(in)
+			if cc == nil || cc.IsInvoke() {
+				return false
+			}
+			if _, isGo := in.(*ssa.Go); isGo {
+				return false
+			}
+			if cc.StaticCallee() == capFn {
+				s, _ := constString(cc.Args[1])
+				return s == "END"
+			}
+			return endWrapper(cc.StaticCallee())
+		})
+		if ok {
+			endMemo[fn] = 2
+		} else {
+			endMemo[fn] = 3
+		}
+		return ok
+	}
 	capCalls := func(fn *ssa.Function, sub string) []ssa.CallInstruction {
 		var out []ssa.CallInstruction
 		for _, cs := range CallSites(fn) {
+			if cs.Common().IsInvoke() {
+				continue
+			}
 			if cs.Common().StaticCallee() == capFn && c.capCallArg(cs) == sub {
+				out = append(out, cs)
+			} else if sub == "END" && fn != cs.Common().StaticCallee() && endWrapper(cs.Common().StaticCallee()) && len(c.ackReachesAuth(cs.Common().StaticCallee(), authFn)) == 0 {
 				out = append(out, cs)
 			}
 		}
@@ -1247,7 +1298,35 @@ func runC19(c *Ctx) {
 		supVar := c.FieldVar(c.Client, "Conn", "supportedCaps")
 		for _, cs := range req {
 			ok, why := false, "variadic argument is not <set>.Slice()"
-			if sl, isC := cs.Common().Args[2].(*ssa.Call); isC && sl.Call.StaticCallee() != nil && c.capRole(sl.Call.StaticCallee()) == "Slice" {
+			// the slice of names may be taken here, or in a helper that builds the set, intersects it and returns
+			// its Slice(): then the helper is where the set lives, and its call stands for the slice in this function
+			host := neg
+			var measure ssa.Value
+			sl, isC := cs.Common().Args[2].(*ssa.Call)
+			var hostCall *ssa.Call
+			if isC && sl.Call.StaticCallee() != nil && c.capRole(sl.Call.StaticCallee()) != "Slice" && !sl.Call.IsInvoke() && c.InModuleFn(sl.Call.StaticCallee()) && sl.Call.StaticCallee().Package() == c.Client {
+				h := sl.Call.StaticCallee()
+				var inner *ssa.Call
+				nRet := 0
+				funcInstrs(h, func(in ssa.Instruction) {
+					if rt, okR := in.(*ssa.Return); okR && len(rt.Results) == 1 {
+						nRet++
+						if x, okX := rt.Results[0].(*ssa.Call); okX && x.Call.StaticCallee() != nil && c.capRole(x.Call.StaticCallee()) == "Slice" {
+							inner = x
+						}
+					}
+				})
+				if nRet == 1 && inner != nil {
+					hostCall, host, sl = sl, h, inner
+				}
+			}
+			if isC {
+				measure = sl
+				if hostCall != nil {
+					measure = hostCall
+				}
+			}
+			if isC && sl.Call.StaticCallee() != nil && c.capRole(sl.Call.StaticCallee()) == "Slice" {
 				set := sl.Call.Args[0]
 				ctor, isCtor := set.(*ssa.Call)
 				switch {
@@ -1256,7 +1335,7 @@ func runC19(c *Ctx) {
 				default:
 					// Intersect(set, supported) dominates; Size() on the same set guards
 					var inter ssa.Instruction
-					for _, x := range CallSites(neg) {
+					for _, x := range CallSites(host) {
 						if cal := x.Common().StaticCallee(); cal != nil && c.capRole(cal) == "Intersect" && x.Common().Args[0] == set {
 							if fv, _ := loadedField(x.Common().Args[1]); fv == supVar && supVar != nil {
 								inter = x
@@ -1271,7 +1350,7 @@ func runC19(c *Ctx) {
 							measures := isS && sc.Call.StaticCallee() != nil && c.capRole(sc.Call.StaticCallee()) == "Size" && sc.Call.Args[0] == set
 							if isS && !measures {
 								// len(<the requested slice>) is the same measure
-								if b, isB := sc.Call.Value.(*ssa.Builtin); isB && b.Name() == "len" && sc.Call.Args[0] == ssa.Value(sl) {
+								if b, isB := sc.Call.Value.(*ssa.Builtin); isB && b.Name() == "len" && sc.Call.Args[0] == measure {
 									measures = true
 								}
 							}
@@ -1299,13 +1378,17 @@ func runC19(c *Ctx) {
 					}
 					// nothing else may modify the request set between its construction and Slice()
 					extra := ""
-					for _, x := range CallSites(neg) {
+					for _, x := range CallSites(host) {
 						cal := x.Common().StaticCallee()
 						if cal == nil || x.Common().IsInvoke() || len(x.Common().Args) == 0 || x.Common().Args[0] != set {
 							continue
 						}
 						switch c.capRole(cal) {
 						case "Intersect", "Size", "Slice", "Has":
+						case "Add":
+							if host == neg {
+								extra = cal.Name() + " at " + c.InstrPos(x)
+							} // in a builder the additions are judged by the wanted-set rule below
 						default:
 							extra = cal.Name() + " at " + c.InstrPos(x)
 						}
@@ -1323,7 +1406,11 @@ func runC19(c *Ctx) {
 						addOK := false
 						for _, x := range CallSites(neg) {
 							if cal := x.Common().StaticCallee(); cal != nil && c.capRole(cal) == "Add" {
-								if fv, _ := loadedField(x.Common().Args[0]); fv == supVar && instrDominates(x, inter) {
+								anchor := inter
+								if hostCall != nil {
+									anchor = hostCall
+								}
+								if fv, _ := loadedField(x.Common().Args[0]); fv == supVar && instrDominates(x, anchor) {
 									if _, isP := x.Common().Args[1].(*ssa.Parameter); isP {
 										addOK = true
 									}
@@ -1335,7 +1422,11 @@ func runC19(c *Ctx) {
 						}
 					}
 					// the constructor: adds sasl iff Sasl != nil, adds Config.Capabilites unconditionally
-					c.wantedSetRule(ctor.Call.StaticCallee())
+					if hostCall != nil {
+						c.wantedSetRuleFor(host, set)
+					} else {
+						c.wantedSetRule(ctor.Call.StaticCallee())
+					}
 				}
 			}
 			r.Add("R1", "request-set", c.InstrPos(cs), c.FuncKey(neg), "requested capabilities = wanted ∩ advertised", ok, why)
@@ -1346,8 +1437,11 @@ func runC19(c *Ctx) {
 	ends := func(fn *ssa.Function) (bool, string) {
 		ok, bad := AllPathsFromEntryPass(fn, func(in ssa.Instruction) bool {
 			cc := callOf(in)
-			if cc == nil || cc.StaticCallee() != capFn {
+			if cc == nil || cc.IsInvoke() {
 				return false
+			}
+			if cc.StaticCallee() != capFn {
+				return endWrapper(cc.StaticCallee())
 			}
 			s, _ := constString(cc.Args[1])
 			return s == "END"
@@ -1545,14 +1639,20 @@ func runC19(c *Ctx) {
 // wantedSetRule: the constructor adds the sasl capability iff Config.Sasl != nil
 // and adds Config.Capabilites unconditionally, returning that set.
 func (c *Ctx) wantedSetRule(ctor *ssa.Function) {
-	r := c.R
-	r.Funcs[c.FuncKey(ctor)] = true
 	var set ssa.Value
 	funcInstrs(ctor, func(in ssa.Instruction) {
 		if rt, ok := in.(*ssa.Return); ok && len(rt.Results) == 1 {
 			set = rt.Results[0]
 		}
 	})
+	c.wantedSetRuleFor(ctor, set)
+}
+
+// wantedSetRuleFor: in ctor, the additions to set are sasl iff SASL is
+// configured and the configured capabilities unconditionally.
+func (c *Ctx) wantedSetRuleFor(ctor *ssa.Function, set ssa.Value) {
+	r := c.R
+	r.Funcs[c.FuncKey(ctor)] = true
 	okSasl, okUser := false, false
 	saslGuard := func(cds []Cond) bool {
 		if len(cds) != 1 {
@@ -2663,4 +2763,19 @@ func (c *Ctx) capAddRule(rule string) {
 		r.Add(rule, fmt.Sprintf("cap-add#%d", n), c.InstrPos(mu), c.FuncKey(add), "Add records \"-name\" as name disabled and any other token as enabled", ok2, why)
 	})
 	r.Floor(rule, "map updates in the capability set's Add", n, 2)
+}
+
+// ackReachesAuth: call sites of Authenticate in fn (used to keep functions that
+// may authenticate out of the "says Cap(END)" wrappers).
+func (c *Ctx) ackReachesAuth(fn, authFn *ssa.Function) []ssa.CallInstruction {
+	var out []ssa.CallInstruction
+	if fn == nil {
+		return nil
+	}
+	for _, cs := range CallSites(fn) {
+		if cs.Common().StaticCallee() == authFn {
+			out = append(out, cs)
+		}
+	}
+	return out
 }
